@@ -588,6 +588,49 @@ theorem no_notification_after_session_loss_run (st : State) (c : Nat) (s0 : Sess
     ∀ out ∈ (run st (.lost c :: evs)).2, ¬ NoteTo out r c tok :=
   Coap.Observe.no_notification_after_session_loss_run st c s0 evs h r tok hne
 
+theorem sum_eq_zero_mem : ∀ (l : List Nat), l.sum = 0 → ∀ x ∈ l, x = 0
+  | [], _, x, hx => by cases hx
+  | a :: t, h, x, hx => by
+    simp only [List.sum_cons] at h
+    cases hx with
+    | head => omega
+    | tail _ hx' => exact sum_eq_zero_mem t (by omega) x hx'
+
+/-- under the reference-count invariant a session the server holds no object for has no observer entries -/
+theorem no_entries_without_session (st : State) (h : RefInv st) (c : Nat) (hc : st.sess c = none) :
+    ∀ y ∈ st.res, ∀ s ∈ y.subs, s.sess ≠ c := by
+  have h1 := h c
+  have h2 : (getSess st c).ref = 0 := by unfold getSess; rw [hc]; rfl
+  have h3 : entriesOf st c = 0 := by omega
+  intro y hy s hs heq
+  unfold entriesOf at h3
+  have := sum_eq_zero_mem _ h3 _ (List.mem_map_of_mem (f := fun x => (x.subs.filter fun s => s.sess == c).length) hy)
+  have hmem : s ∈ y.subs.filter fun s => s.sess == c := List.mem_filter.mpr ⟨hs, by simp [heq]⟩
+  have : (y.subs.filter fun s => s.sess == c) = [] := List.eq_nil_of_length_eq_zero this
+  rw [this] at hmem; cases hmem
+
+/-- cause 5 without the side condition "the server still holds the session object": in every reachable state (RefInv) -/
+theorem no_notification_after_session_loss_run' (st : State) (c : Nat) (evs : List Event) (h : RefInv st) (r tok : Nat)
+    (hne : ∀ e ∈ evs, ¬ isRegOf e c r tok) :
+    ∀ out ∈ (run st (.lost c :: evs)).2, ¬ NoteTo out r c tok := by
+  cases hc : st.sess c with
+  | some s0 => exact no_notification_after_session_loss_run st c s0 evs hc r tok hne
+  | none =>
+    have habs : Absent st r c tok := by
+      intro y hy _ _ s hs
+      have := no_entries_without_session st h c hc y hy s hs
+      unfold matchST
+      simp [this]
+    refine (no_notification_while_absent st (.lost c :: evs) r c tok habs ?_).2
+    intro e he
+    cases he with
+    | head => intro hh; simp [isRegOf, isRegOfB] at hh
+    | tail _ he' => exact hne e he'
+
+example : ∀ out ∈ (run (run runStart [.reg 0 0 1 0 true 1, .chg 0, .adv 0]).1 [.lost 0, .chg 0, .adv 0, .adv 40000, .lost 0, .chg 0, .adv 0]).2,
+    ¬ NoteTo out 0 0 1 :=
+  no_notification_after_session_loss_run' _ 0 _ (run_refInv _ _ (by decide) (init_refInv _ _ (by decide))) 0 1 (by decide)
+
 /-- cause 6, resource deletion: after the `.del` step (which writes the 4.04 goodbyes, `goodbye_on_resource_deletion`) nothing
     is ever written about r again — for every session and token, over ANY continuation, registration attempts included -/
 theorem no_notification_after_resource_deletion_run (st : State) (r : Nat) (evs : List Event) :
